@@ -245,9 +245,7 @@ func c14RunLRU(c c14Case, st *fw.Stats) []fw.Viol {
 				st.Nontrivial++
 				h2 := append(append([]lruOp(nil), n.hist...), op)
 				frontier = append(frontier, node{h2})
-				if len(h2) > int(st.C["max_depth"]) {
-					st.C["max_depth"] = int64(len(h2))
-				}
+				st.Max("max_depth", int64(len(h2)))
 			}
 		}
 	}
